@@ -21,16 +21,17 @@ META = dict(
     specs=["ProxyHdr.tla", "ProxyHdrMC.tla", "ProxyHdrTrace.tla"],
     technique="TLA+ spec of the PROXY-header relation (valid: addresses + exactly the payload, never closed; invalid: nothing "
               "delivered, closed between the first bad byte and the end of the offending header) with a buffering wrapper design, "
-              "checked exhaustively by TLC over 22 header kinds with real lengths and every segmentation + TLC trace validation "
+              "whose validity classification (PROXY spec v1/v2) is part of the spec, checked exhaustively by TLC over header descriptors ranging over the v2 nibbles, lengths and v1 token classes with every segmentation + TLC trace validation "
               "of real HAProxyWrappingFactory connections (every single split of every kind, random multi-splits)",
     level_text="TLC checks for every header kind and every segmentation that a buffering wrapper design delivers exactly the payload "
                "with the header's addresses for valid headers and closes without delivering anything for invalid ones; every "
                "recorded connection through the real HAProxyWrappingFactory is validated by TLC against that relation, as is the "
                "one-piece run of every prefix reached.",
-    level_note="Trusted: TLC, the adapter's logging, and the generator's concretisation of an abstract header (kind, length, first "
-               "bad byte, decision point) to bytes -- header validity is defined by the generator following the PROXY protocol "
-               "specification v1/v2, not re-parsed by the spec. Address text is normalised with ipaddress before comparison. "
-               "Nothing is delivered after a close request (TCP semantics). TLV contents are opaque.",
+    level_note="Trusted: TLC, the adapter's logging, and the adapter's lexer that reads the header fields off the real bytes (v2 nibbles "
+               "and length; v1 tokens, with Python's ipaddress deciding whether a token is a well-formed address literal and decoding the "
+               "expected addresses). Validity, header length and decision points are derived by the spec from those fields following the "
+               "PROXY protocol specification. Nothing is delivered after a close request (TCP semantics); an exception escaping "
+               "dataReceived counts as closing. TLV contents are opaque.",
     design_ref="2.6 C47",
     rule="case = header kind (or mutation) with random field values x payload x segmentation; distinct = hash of (cfg, events); "
          "non-trivial = stream cut into at least two deliveries or an invalid stream",
